@@ -44,6 +44,9 @@ pub enum Probe {
     FrameNumber { n: usize },
     /// encode_fixed_size_frame with a StreamInfo that disagrees with the FrameBuf
     FrameInfoMismatch { fb_ch: usize, info_ch: usize, info_bps: usize, data_bps: usize },
+    /// encode_fixed_size_frame with a StreamInfo that no constructor returns (obtained by deserialisation,
+    /// StreamInfo derives Deserialize): channel count, width and rate as given; the frame buffer is valid
+    FrameInfoDeserialized { ch: usize, bps: usize, rate: usize },
     /// encode_fixed_size_frame with one sample outside the width
     FrameBadSample {
         bps: usize,
@@ -162,6 +165,7 @@ pub fn expectation(p: &Probe) -> Expect {
                 Expect::MustErr
             }
         }
+        Probe::FrameInfoDeserialized { ch, bps, rate } => combine(&[rate_class(*rate), ch_class(*ch), width_class(*bps)]),
         Probe::FrameBadSample { .. } => Expect::MustErr,
         Probe::StreamNew { rate, ch, bps } | Probe::StreamInfoNew { rate, ch, bps } => combine(&[rate_class(*rate), ch_class(*ch), width_class(*bps)]),
         Probe::FrameBufNew { ch, size } => combine(&[ch_class(*ch), bs_class(*size)]),
@@ -340,6 +344,26 @@ pub fn execute(p: &Probe) -> Outcome {
                 let info = StreamInfo::new(44100, *info_ch, *info_bps).map_err(|e| format!("setup: {e:?}"))?;
                 flacenc::encode_fixed_size_frame(&c, &fb, 0, &info).map(|_| ()).map_err(|e| format!("{e:?}"))
             }
+            Probe::FrameInfoDeserialized { ch, bps, rate } => {
+                let c = cfg(false);
+                let fb_ch = if (1..=8).contains(ch) { *ch } else { 2 };
+                let mut fb = FrameBuf::with_size(fb_ch, 64).map_err(|e| format!("setup: {e:?}"))?;
+                fb.fill_interleaved(&ramp(64 * fb_ch, 8)).map_err(|e| format!("setup: {e:?}"))?;
+                let good = StreamInfo::new(44100, 2, 16).map_err(|e| format!("setup: {e:?}"))?;
+                let mut v = toml::Value::try_from(&good).map_err(|e| format!("setup: {e}"))?;
+                {
+                    let t = v.as_table_mut().ok_or("setup: StreamInfo is not a table")?;
+                    t.insert("channels".into(), toml::Value::Integer(*ch as i64));
+                    t.insert("bits_per_sample".into(), toml::Value::Integer(*bps as i64));
+                    t.insert("sample_rate".into(), toml::Value::Integer(*rate as i64));
+                }
+                // a value the document cannot carry (or that deserialisation refuses) is no probe at all
+                let info: StreamInfo = match v.try_into() {
+                    Ok(i) => i,
+                    Err(e) => return Err(format!("deserialisation refused: {e}")),
+                };
+                flacenc::encode_fixed_size_frame(&c, &fb, 0, &info).map(|_| ()).map_err(|e| format!("{e:?}"))
+            }
             Probe::FrameBadSample { bps, value, ch, filled, channels } => {
                 let c = cfg(false);
                 let nch = if *channels == 0 { 2 } else { *channels };
@@ -460,6 +484,7 @@ fn kind(p: &Probe) -> &'static str {
         Probe::StreamOverfill { .. } => "encode_with_fixed_block_size(overfull read)",
         Probe::FrameNumber { .. } => "encode_fixed_size_frame(frame number)",
         Probe::FrameInfoMismatch { .. } => "encode_fixed_size_frame(StreamInfo vs FrameBuf)",
+        Probe::FrameInfoDeserialized { .. } => "encode_fixed_size_frame(deserialised StreamInfo)",
         Probe::FrameBadSample { .. } => "encode_fixed_size_frame(out-of-width sample)",
         Probe::StreamNew { .. } => "Stream::new",
         Probe::StreamInfoNew { .. } => "StreamInfo::new",
@@ -617,6 +642,13 @@ pub fn probes() -> Vec<Probe> {
     for fb_ch in [1usize, 2, 3, 8] {
         for info_ch in [1usize, 2, 3, 8] {
             v.push(Probe::FrameInfoMismatch { fb_ch, info_ch, info_bps: 16, data_bps: 16 });
+        }
+    }
+    for ch in [0usize, 1, 2, 8, 9, 255] {
+        for bps in [0usize, 4, 8, 16, 17, 24, 28, 32, 40, 255] {
+            for rate in [44100usize, 96000, 96001, 192000, 1000000] {
+                v.push(Probe::FrameInfoDeserialized { ch, bps, rate });
+            }
         }
     }
     for (info_bps, data_bps) in [(8usize, 16usize), (16, 24), (12, 16), (16, 17), (24, 25), (8, 9), (16, 16), (24, 24), (20, 16)] {
